@@ -1,0 +1,19 @@
+// SPDX-FileCopyrightText: 2022-present Intel Corporation
+//
+// SPDX-License-Identifier: Apache-2.0
+
+//go:build verif
+
+// Contracts for the deductive verifier in /verif (govc). Comment-only: this file contains no code
+// and is excluded from every build that does not set the "verif" tag.
+
+package proposal
+
+//@ import configapi "github.com/onosproject/onos-api/go/onos/config/v2"
+
+//@ func (*Reconciler).reconcileAbort
+//@   requires r != nil && proposal != nil && proposal.tracked && proposalSnapshotted(proposal) && proposalWellFormed(proposal)
+//@   requires proposal.Status.Phases.Abort != nil
+//@   requires proposal.Status.PrevIndex < proposal.TransactionIndex
+//@   ensures {C01,C02} aborted-advances-both: old(proposal.Status.Phases.Abort.State) == configapi.ProposalAbortPhase_ABORTING && proposal.Status.Phases.Abort.State == configapi.ProposalAbortPhase_ABORTED ==> storedCfgCommitted >= proposal.TransactionIndex && storedCfgApplied >= proposal.TransactionIndex
+//@   ensures {C01} abort-writes-no-values: cfgValueWrites == old(cfgValueWrites) && cfgCreates == old(cfgCreates)
